@@ -1159,6 +1159,7 @@ def c11(W, replay=None):
         ms = sample(W, [m for m in ms if any(s.get("ans") == "badToken" for s in m["steps"])], 1000 if W.tier == "thorough" else 80)
         scen += [conv(m, "c11/race/%d" % i, 1, store=("memory", "redis")[i % 2], probes=finish_all(m) + [PROBE_APP]) for i, m in enumerate(ms)]
         scen += replica_family(W) + env_std(W) + debug_family(W) + envelope_late(W, family(W, "C11", "quick"))
+        scen += [x for x in family(W, "C15", "quick") if "/body/" in x["id"]]        # refresh exchanges answered with something that is no token response
         scen += cancel_family(W, [x for x in scen if x["id"].startswith(("c11/rotate/n1", "c11/noRotate/n1", "c11/omitId/n1", "c11/badSig/n1"))])
         # every single fault position on the refresh path (store calls, provider, key lookup; Redis: single commands)
         ms = export(W, "c11-faults", Prepared='"expired"', Target=1, MaxApps=1, MaxFaults=2 if W.tier == "thorough" else 1, Checks="{1,2,3,4}", MaxSid=3, MaxTok=4)
